@@ -32,6 +32,10 @@ def run(rep, tier):
     dense.r_cont_layout(rep, f)
     dense.r_seg_keep(rep, f)
     dense.r_seg_filter(rep, f)
+    rep.rule("R-SEG-VERBATIM", "the handler stores the fields of one to_segment() result unmodified, from_segments reads each tuple position back into the same field, and the store is append-only (no mutable access other than push)")
+    dense.r_seg_verbatim(rep, f)
+    rep.rule("R-SEG-FIELDS", "StepInterpolant and DenseSegment copy each other field by field and call the interpolation function with their own (cont, xold, h) in the declared positions")
+    dense.r_seg_fields(rep, f)
     dense.r_seg_lookup(rep, f)
     dense.r_seg_per_query(rep, f)
     rep.rule("R-SPAN-ENDS", "ContinuousOutput::t_span() is (first segment's xold, last segment's xold + h) in the order of integration (symbolic, dense.rs helpers interpreted in place)")
